@@ -20,7 +20,10 @@ RULE = ('S1: every assignment of a body from a generated menu (role leaves, '
         'and role:x, rule:next or role:x} and a final body role:y / undefined '
         'reference; S4: recording check kinds with and without a '
         'current_rule parameter at every leaf position under alias depth '
-        '0-3.  case = one rule set; non-trivial = at least one reference.')
+        '0-3; S5: every sequence of <=3 in-place redefinitions (set_rules '
+        'overwrite=False, item assignment, deletion, first definition of an '
+        'undefined name) on one long-lived enforcer, decisions after each '
+        'step against the reference model.  case = one rule set; non-trivial = at least one reference.')
 ASSUMPTIONS = ['generated body menu replaces random expressions',
                'reference model: R-store lookup + R-lang evaluation']
 
@@ -147,6 +150,9 @@ def plan(tier, seed):
         jobs.append({'space': 'S3', 'lo': lo, 'hi': hi, 'tier': tier,
                      'weight': (hi - lo) * 3})
     jobs.append({'space': 'S4', 'tier': tier, 'weight': 500})
+    for i in range(8):
+        jobs.append({'space': 'S5', 'tier': tier, 'shard': i, 'of': 8,
+                     'weight': 400})
     return jobs
 
 
@@ -250,6 +256,8 @@ def run(job, seed):
         acc.sample('S1', rules)
     elif job['space'] == 'S3':
         run_chains(acc, enf, job, b['chain'])
+    elif job['space'] == 'S5':
+        run_redefine(acc, job, 3 if job['tier'] == 'quick' else 4)
     else:
         run_current_rule(acc)
     return acc.result()
@@ -366,6 +374,81 @@ def run_current_rule(acc):
     if RECORD != [('vrec4', 't', None)]:
         acc.violation('S4|object', 'check object call recorded %r' % RECORD,
                       {'rule': 'vrec4:t as object'}, None, RECORD, 'S4')
+
+
+REDEF_BODIES = ['role:x', 'role:y', 'not rule:m']
+
+
+def run_redefine(acc, job, depth):
+    """S5: 'current definition' - on ONE long-lived enforcer the referenced
+    names are redefined in place (set_rules(overwrite=False), item
+    assignment, deletion, definition of a so far undefined name) between
+    decisions; after every step each name must decide as the reference model
+    says for the rule set as it now stands."""
+    from oslo_policy import _parser, policy as P
+    starts = [
+        ({'top': 'rule:n or role:z', 'neg': 'not rule:top', 'n': 'role:x',
+          'm': 'role:z'}, None),
+        ({'top': 'rule:n or role:z', 'neg': 'not rule:top', 'dflt': 'role:y',
+          'm': 'role:z'}, 'dflt'),
+    ]
+    ops = []
+    for name in ('n', 'm'):
+        for body in REDEF_BODIES:
+            if name == 'm' and 'rule:m' in body:
+                continue
+            ops.append(('update', name, body))
+            ops.append(('assign', name, body))
+    ops.append(('delete', 'n', None))
+    names = ['top', 'neg', 'n', 'm', 'unknown']
+    idx = 0
+    for start, default in starts:
+        for n in range(1, depth + 1):
+            for seq in itertools.product(ops, repeat=n):
+                idx += 1
+                if idx % job['of'] != job['shard']:
+                    continue
+                enf = world.bare_enforcer()
+                cur = dict(start)
+                vector(enf, cur, default, names)      # decide once (warm-up)
+                acc.case('S5', True)
+                for step, (op, name, body) in enumerate(seq):
+                    if op == 'update':
+                        enf.set_rules(P.Rules.from_dict({name: body}),
+                                      overwrite=False, use_conf=False)
+                        cur[name] = body
+                    elif op == 'assign':
+                        enf.rules[name] = _parser.parse_rule(body)
+                        cur[name] = body
+                    else:
+                        enf.rules.pop(name, None)
+                        cur.pop(name, None)
+                    if not acyclic(cur, default):
+                        break
+                    got = []
+                    for q in names:
+                        for roles in ROLESETS + [('z',), ('x', 'z')]:
+                            acc.ev()
+                            got.append(world.decide(enf, q, {},
+                                                    {'roles': list(roles)}))
+                    exp = [('ok', ref_decide(cur, default, q, set(r)))
+                           for q in names
+                           for r in ROLESETS + [('z',), ('x', 'z')]]
+                    if got != exp:
+                        i = [g != e for g, e in zip(got, exp)].index(True)
+                        acc.violation(
+                            'S5|%s|stale-after-%s' % (
+                                'default' if default else 'nodefault', op),
+                            'after %r the rule %r decides %r, its current '
+                            'definition says %r' % (seq[:step + 1],
+                                                    names[i // 6], got[i],
+                                                    exp[i]),
+                            {'start': start, 'default': default,
+                             'ops': [list(o) for o in seq[:step + 1]]},
+                            exp[i], got[i], 'S5')
+                        break
+                acc.outcome('redef-%d' % n)
+    acc.sample('S5', {'ops': [list(o) for o in seq]})
 
 
 def replay(doc):
